@@ -3,6 +3,7 @@ package parser
 
 import (
 	"slices"
+	"strconv"
 
 	c "github.com/paulsonkoly/calc/combinator"
 	"github.com/paulsonkoly/calc/lexer"
@@ -36,7 +37,22 @@ func Parse(input string) ([]node.Type, *Error) {
 
 func acceptTerm(tokType token.Kind, msg string) c.Parser {
 	tokenWrap := tokenWrapper{}
-	return c.Accept(func(tok c.Token) bool { return tok.(token.Type).Type == tokType }, msg, tokenWrap)
+	return c.Accept(func(tok c.Token) bool {
+		ctok := tok.(token.Type)
+		return ctok.Type == tokType && representable(ctok)
+	}, msg, tokenWrap)
+}
+
+// representable tells if a numeric literal fits the value types.
+func representable(tok token.Type) bool {
+	var err error
+	switch tok.Type {
+	case token.IntLit:
+		_, err = strconv.Atoi(tok.Value)
+	case token.FloatLit:
+		_, err = strconv.ParseFloat(tok.Value, 64)
+	}
+	return err == nil
 }
 
 func acceptToken(str string) c.Parser {
